@@ -420,9 +420,9 @@ func vGenSegsC01(t *rapid.T, slots *int, big, huge *bool) (segs []vSegC01, class
 		default: // only zeros
 			return []vSegC01{{K: 'z', N: rapid.IntRange(vMinChunkC01, 3*vMinChunkC01+5).Draw(t, "zLen"), Hole: rapid.Bool().Draw(t, "zHole")}}, "content=all-zero>=512K"
 		}
-	case c < 40:
+	case c < 10:
 		return nil, "content=empty"
-	case c < 60:
+	case c < 40:
 		return []vSegC01{{K: kind(), N: rapid.IntRange(1, 64).Draw(t, "tinyLen"), Seed: seed()}}, "content=tiny"
 	case c < 85:
 		return []vSegC01{{K: kind(), N: rapid.IntRange(65, 4096).Draw(t, "smallLen"), Seed: seed()}}, "content=small"
@@ -553,7 +553,7 @@ func vGenCfgC01(t *rapid.T) vCfgC01 {
 	return vCfgC01{
 		Vmem:        rapid.Bool().Draw(t, "vmem"),
 		Version:     rapid.SampledFrom([]string{"1", "2", "2"}).Draw(t, "version"),
-		Compression: rapid.SampledFrom([]string{"off", "auto", "max", "auto", "max", "fastest", "better"}).Draw(t, "compression"),
+		Compression: rapid.SampledFrom([]string{"off", "off", "auto", "auto", "auto", "auto", "max", "fastest", "better"}).Draw(t, "compression"),
 		PackSize:    rapid.SampledFrom([]uint{0, 4, 4, 16, 128, 7}).Draw(t, "packSize"),
 		ReadConc:    uint(rapid.IntRange(0, 8).Draw(t, "readConcurrency")),
 		Conns:       rapid.SampledFrom([]uint{1, 2, 5, 8}).Draw(t, "connections"),
